@@ -143,11 +143,14 @@ def run(chk):
         "with qsort, the rbtree or the hash table (hard-link (device, inode) key, directory cache, xattr block dedup, string "
         "table) is evaluated over all 3^k orderings of its key parts: reflexive, antisymmetric, every part relevant, "
         "lexicographic -- distinct keys are never merged; (g) K2-exact: length-limited comparisons of node names check the "
-        "terminator. K13-highwater: the count of valid block-size words of a file inode is never lowered. E4/E7 of C13 over the gensquashfs closure: a write or allocation failure is not forgotten (exit 0 with an unreadable image).")
+        "terminator. K13-highwater: the count of valid block-size words of a file inode is never lowered. E4/E7 of C13 over the gensquashfs closure: a write or allocation failure is not forgotten (exit 0 with an unreadable image). K12-packedref (sa/packedref.py): a metadata reference ((block start << 16) | offset) is copied, compared or taken apart, never an operand of add/sub/mul. K12-slotnum (with C03): where slots of the inode table are rewritten, the numbers of the nodes that moved are stored before a number is read as a slot again.")
     chk.assumptions = ["hard-link grouping, xattr round trip and data contents are not decided"]
     prog = load_program("all")
     run_k7(chk, prog, "K7")
     run_a1(chk, prog, "A1")
+    from .c07 import retag_rule
+    retag_rule(chk, prog)           # the tag of an existing node's union is not changed under it
+    chk.floor("A1-retag", 2)
     rule_alloca(chk, prog)
     run_k6idx(chk, prog, "K6-index")
     run_deadcol(chk, prog, "K2-column")
@@ -164,9 +167,12 @@ def run(chk):
     rule_i_every_block(chk, load_program("gensquashfs"))
     rule_highwater(chk, load_program("gensquashfs"))
     rule_byte_order(chk, prog)
-    from .c03 import rule_file_nlink, rule_not_full
+    from .c03 import rule_file_nlink, rule_not_full, rule_slot_number
     rule_file_nlink(chk, load_program("gensquashfs"))
     rule_not_full(chk, load_program("gensquashfs"))
+    # hard links: the table that is rewritten to put link targets in front of the directory and the numbers read as slots
+    rule_slot_number(chk, load_program("gensquashfs"))
+    chk.floor("K12-slotnum", 2)
     from ..controls import control_program
     from ..report import Check
     sub = Check("C01-control", chk.tier)
@@ -191,6 +197,13 @@ def run(chk):
     from ..capagree import run_capagree
     run_capagree(chk, load_program("gensquashfs"))
     chk.floor("K6-capagree", 3)
+    # references into metadata tables are packed coordinates: formed from the writer's position, never computed with
+    from ..packedref import run_packedref
+    _, ncar = run_packedref(chk, load_program("gensquashfs"))
+    if ncar < 3:
+        chk.broke("K12-packedref: only %d struct members that carry packed metadata references found (inode_ref, dir_ref, "
+                  "start_ref were confirmed by hand)" % ncar)
+    chk.floor("K12-packedref", 6)
     from .c10 import same_bound_rule
     same_bound_rule(chk, load_program("rdsquashfs"))
     # a write error that is lost lets the packer exit 0 with an image that does not read back: the error-flow rules of
